@@ -330,7 +330,10 @@ struct Puppet12::Impl {
         server_random = rnd(32);
         if (cfg.server_random_tail.size() == 8) std::copy(cfg.server_random_tail.begin(), cfg.server_random_tail.end(), server_random.begin() + 24);
         if (cfg.resume.valid() && ch_sid == cfg.resume.id) { resumed_ = true; session_id = cfg.resume.id; master = cfg.resume.master; have_master = true; have_keys = false; override_master(); }
-        else session_id = cfg.server_empty_session_id ? Bytes() : rnd(32);
+        else {
+            session_id = cfg.server_empty_session_id ? Bytes() : rnd(32);
+            if (cfg.ticket_master.size() == 48 && ch_ticket_len > 0) { resumed_ = true; master = cfg.ticket_master; have_master = true; have_keys = false; override_master(); }   // ticket accepted
+        }
         ems = cfg.ems && client_offers_ems && !cfg.server_no_extensions;
         Bytes b; put16(b, wire_ver()); app(b, server_random); b.push_back((uint8_t) session_id.size()); app(b, session_id);
         put16(b, cfg.server_suite_override >= 0 ? (unsigned) cfg.server_suite_override : cfg.suite); b.push_back(0);
@@ -662,7 +665,8 @@ std::vector<Step> legal_script(const Config &cfg, bool resumed) {
     } else {
         if (cfg.dtls && cfg.dtls_cookie) add(M_HELLO_VERIFY_REQUEST);
         add(M_SERVER_HELLO);
-        if (!resumed) { add(M_CERTIFICATE); if (ecdhe) add(M_SERVER_KEY_EXCHANGE); if (cfg.client_auth) add(M_CERTIFICATE_REQUEST); add(M_SERVER_HELLO_DONE); if (cfg.ack_ticket_ext) add(M_NEW_SESSION_TICKET); }
+        if (!resumed) { add(M_CERTIFICATE); if (ecdhe) add(M_SERVER_KEY_EXCHANGE); if (cfg.client_auth) add(M_CERTIFICATE_REQUEST); add(M_SERVER_HELLO_DONE); }
+        if (cfg.ack_ticket_ext) add(M_NEW_SESSION_TICKET);
         add(M_CCS); add(M_FINISHED);
     }
     return s;
